@@ -49,8 +49,12 @@ func sniffAllAt(c *Ctx, before []byte, seek bool, stream []byte, rk int, d Deliv
 		e := harness.EntryByName(en)
 		c.Dev.Budget = c.Dev.Seq + 1<<20
 		dd := d
-		if en == "imagetype.Buf" || en == "imagetype.ReadAt" {
+		if en == "imagetype.Buf" {
 			dd = Delivery{}
+		}
+		if en == "imagetype.ReadAt" {
+			// random access has no pieces, but a ReaderAt may report io.EOF together with the last bytes
+			dd = Delivery{DataEOF: d.DataEOF}
 		}
 		content := stream
 		env := &harness.Env{RK: rk}
@@ -236,6 +240,10 @@ func init() {
 						}
 					}
 					stream = append(stream, g.Sub().Bytes(g.Intn(9000))...)
+					if c.L("gen:y").Chance(1, 8) {
+						stream = stream[:24] // exactly the window: the last byte needed is the last byte there is
+						c.Inc("probe:stream-of-exactly-24-bytes")
+					}
 				}
 				rk := cfg.Intn(harness.NumRK)
 				d := drawDelivery(c.L("dev:0"))
